@@ -6,7 +6,7 @@ cp $SRC/patch.diff $SRC/demo.py $D/; [ -f $SRC/notes.md ] && cp $SRC/notes.md $D
 /venv/bin/python - "$NAME" "$NEEDS" <<'PY'
 import sys, json
 name, needs = sys.argv[1], sys.argv[2]
-json.dump({'property': name[:3], 'origin': 'independent sub-agent (round 2: told only the property text and the one-line idea of the round-1 change to avoid) working in a scratch worktree of /repo at HEAD',
+json.dump({'property': name[:3], 'origin': 'independent sub-agent (later round: told only the property text and the one-line ideas of the earlier changes to avoid) working in a scratch worktree of /repo at HEAD',
            'needs_to_manifest': needs, 'first_evaluation': 'pending', 'status': 'pending re-evaluation'},
           open('/verif/seeded/%s/meta.json' % name, 'w'), indent=1)
 PY
